@@ -57,6 +57,7 @@ var owners = map[string][]string{
 	"hang.lock":   {"C18", "C09", "C16"},
 	"junk":        {"C19", "C05"},
 	"events":      {"C15"},
+	"afterclose":  {"C15"},
 	"events.late": {"C15"},
 	"resources":   {"C15"},
 	"challenge":   {"C03"},
